@@ -52,8 +52,14 @@ def run(tier, seed):
     import refrun
     progs, srcs = refrun.gen_programs(seed + 211, 120 if tier == "quick" else 1200, 5, err_rate=0.0, features={"ext": True, "ext2": "half"})
     for p in progs:
+        # destructuring lets in other layouts than the canonical one: a space or a trailing comma before `)`
+        letds = rf.nodes(p, lambda n: n["k"] == "letd")
+        for n in letds:
+            if rnd.random() < 0.6:
+                n["pad"] = rnd.choice([" ", ",", ", ", "  "])
         if p["id"] % 4 == 0:
             add_typed_shapes(p)
+        if p["id"] % 4 == 0 or letds:
             srcs[p["id"]] = gen_prog.render(p)
     tres, exp = refrun.ref_expect(progs)
     ck.add_tlc(tres)
@@ -73,6 +79,16 @@ def run(tier, seed):
             a = n["start"] + 4
             jobs.append((["reftest-add-type-annotation", "FILE", str(a), str(a + len(n["n"]))], s))
             meta.append((p, s, e, a, a + len(n["n"]), "annotate", nerrors(bc)))
+        # the names of destructuring lets (first and last): annotating them may be refused, but must not
+        # produce a broken program
+        dl = [n for n in rf.nodes(p, lambda n: n["k"] == "letd" and "start" in n)]
+        rnd.shuffle(dl)
+        for n in dl[:3 if tier == "quick" else 6]:
+            first = n["start"] + 5
+            last = first + len(", ".join(n["ns"][:-1])) + (2 if len(n["ns"]) > 1 else 0)
+            for a, nm in ((first, n["ns"][0]), (last, n["ns"][-1])):
+                jobs.append((["reftest-add-type-annotation", "FILE", str(a), str(a + len(nm))], s))
+                meta.append((p, s, e, a, a + len(nm), "annotate", nerrors(bc)))
     res = rf.cli(jobs)
     news = [out if rc == 0 else None for rc, out, err in res]
     idx = [i for i, n in enumerate(news) if n is not None]
